@@ -1001,6 +1001,8 @@ pub struct YamlDeserializer<'de, 'e> {
     in_key: bool,
     /// True when the recorded key node was exactly an empty mapping (MapStart followed by MapEnd).
     key_empty_map_node: bool,
+    /// True while a field / variant name is read: it is taken as it is written.
+    identifier: bool,
 
     #[cfg(any(feature = "garde", feature = "validator"))]
     garde: Option<&'e mut PathRecorder>,
@@ -1024,6 +1026,7 @@ impl<'de, 'e> YamlDeserializer<'de, 'e> {
             cfg,
             in_key: false,
             key_empty_map_node: false,
+            identifier: false,
 
             #[cfg(any(feature = "garde", feature = "validator"))]
             garde: None,
@@ -1041,6 +1044,7 @@ impl<'de, 'e> YamlDeserializer<'de, 'e> {
             cfg,
             in_key: false,
             key_empty_map_node: false,
+            identifier: false,
             garde: Some(garde),
         }
     }
@@ -1475,11 +1479,47 @@ impl<'de, 'e> de::Deserializer<'de> for YamlDeserializer<'de, 'e> {
                 value,
                 ..
             }) => {
+                // A borrowed string has to pass what `deserialize_string` demands of an owned
+                // one (an identifier is taken as it is written).
+                let string_rules = !self.identifier;
                 // Check for null - not valid for string deserialization
-                if tag == &SfTag::Null || scalar_is_nullish(value, style) {
+                if (tag == &SfTag::Null || scalar_is_nullish(value, style))
+                    && !(string_rules && tag == &SfTag::String)
+                {
                     let loc = *location;
                     let _ = self.ev.next()?;
                     return Err(Error::NullIntoString { location: loc });
+                }
+                if string_rules {
+                    if self.cfg.no_schema
+                        && maybe_not_string(value, style)
+                        && tag != &SfTag::String
+                    {
+                        let (value, _tag, location) = self.take_scalar_event()?;
+                        return Err(Error::quoting_required(&value).with_location(location));
+                    }
+                    if *tag == SfTag::Binary && !self.cfg.ignore_binary_tag_for_string {
+                        // The decoded payload is not part of the input: it can only be owned.
+                        let loc = *location;
+                        let decoded = self.take_string_scalar()?;
+                        return match visitor.visit_string::<Error>(decoded) {
+                            Err(err) if err.to_string().contains("expected a borrowed string") => {
+                                Err(Error::cannot_borrow_transformed(
+                                    TransformReason::ParserReturnedOwned,
+                                )
+                                .with_location(loc))
+                            }
+                            other => other,
+                        };
+                    }
+                    if !tag.can_parse_into_string()
+                        && *tag != SfTag::NonSpecific
+                        && !(self.cfg.ignore_binary_tag_for_string && *tag == SfTag::Binary)
+                    {
+                        return Err(Error::TaggedScalarCannotDeserializeIntoString {
+                            location: *location,
+                        });
+                    }
                 }
                 *location
             }
@@ -2171,6 +2211,7 @@ impl<'de, 'e> de::Deserializer<'de> for YamlDeserializer<'de, 'e> {
                     cfg: self.cfg,
                     in_key: true,
                     key_empty_map_node: kemn,
+                    identifier: false,
 
                     #[cfg(any(feature = "garde", feature = "validator"))]
                     garde: None,
@@ -3156,7 +3197,11 @@ impl<'de, 'e> de::Deserializer<'de> for YamlDeserializer<'de, 'e> {
     }
 
     /// Deserialize an identifier (e.g., struct field name); treated as string.
-    fn deserialize_identifier<V: Visitor<'de>>(self, visitor: V) -> Result<V::Value, Self::Error> {
+    fn deserialize_identifier<V: Visitor<'de>>(
+        mut self,
+        visitor: V,
+    ) -> Result<V::Value, Self::Error> {
+        self.identifier = true;
         self.deserialize_str(visitor)
     }
 
